@@ -128,33 +128,7 @@ func factsC07(r *Repo) []Fact {
 		where := "compose/" + file + ": func (graph) updateToValidateMap"
 		var conds []string
 		conv := false
-		ast.Inspect(fd.Body, func(n ast.Node) bool {
-			is, ok := n.(*ast.IfStmt)
-			if !ok {
-				return true
-			}
-			cur := is
-			for cur != nil {
-				assigns := false
-				for _, bs := range cur.Body.List {
-					if as, ok := bs.(*ast.AssignStmt); ok && len(as.Lhs) == 1 && strings.HasSuffix(exprString(as.Lhs[0]), ".cr.inputType") {
-						assigns = true
-					}
-				}
-				if assigns {
-					conds = append(conds, exprString(cur.Cond))
-				}
-				if exprString(cur.Cond) == "result==assignableTypeMay" && strings.Contains(c20StmtIdents(cur.Body), "inputConverter") {
-					conv = true
-				}
-				next, _ := cur.Else.(*ast.IfStmt)
-				cur = next
-			}
-			return false // do not descend: else-chains are walked above; nested ifs handled by separate Inspect below
-		})
-		// nested statements (the loop bodies) – walk every if statement once more, collecting from all depths
-		conds = nil
-		conv = false
+		// every if statement of the function, at any depth, once
 		seen := map[*ast.IfStmt]bool{}
 		ast.Inspect(fd.Body, func(n ast.Node) bool {
 			is, ok := n.(*ast.IfStmt)
